@@ -504,7 +504,7 @@ def explore(tier, seed, res=None, replay=None):
                 "reorderings / relabellings of its rows, frames with unused columns sharing a label; "
                 "non-trivial = a pair whose design has a categorical or stateful "
                 "atom; distinct by (formula, variant)")
-    n_cases = 300 if tier == "quick" else 10000
+    n_cases = 300 if tier == "quick" else 3500
     cases = []
     if replay is not None:
         cases = [(replay["formula"], replay.get("seed_path", 0))]
